@@ -15,6 +15,7 @@ import (
 	"os"
 	"path/filepath"
 	"regexp"
+	"sort"
 	"strings"
 
 	"github.com/janelia-flyem/dvid/datatype/common/labels"
@@ -27,6 +28,8 @@ type opSpec struct {
 	Kind    string `json:"kind"`             // store delete move | merge cleave chidx | post postreplace njdelete | newversion branch mergeparents
 	Variant int    `json:"variant"`          // >0: the request's own block/label (annotation), branch name or child kind (datastore)
 	Flavor  string `json:"flavor,omitempty"` // neuronjson: "nomem" = on the open head of a named branch, which has no in-memory db
+	Args    []int  `json:"args,omitempty"`   // xmerge: [which separate body]; xcleave: the supervoxels (see lmxEpisode)
+	Pre     int    `json:"pre,omitempty"`    // xmerge/xcleave: supervoxels merged into the target before the episode
 }
 
 type schedReq struct {
@@ -47,12 +50,13 @@ type schedView struct {
 }
 
 type schedEpisode struct {
-	reqs   []schedReq
-	init   []view                     // what the locations held before the requests (ids >= 100: seeded content)
-	serial func(acked []int) [][]view // non-commuting requests: the states of the sequential orders of the acknowledged ones
-	views  []schedView
-	extra  func() int
-	finish func()
+	reqs    []schedReq
+	init    []view                     // what the locations held before the requests (ids >= 100: seeded content)
+	serial  func(acked []int) [][]view // non-commuting requests: the states of the sequential orders of the acknowledged ones
+	observe func(acked []int) []view   // explicit-state episodes: all views at once
+	views   []schedView
+	extra   func() int
+	finish  func()
 }
 
 var siteYields = map[string][]string{
@@ -102,12 +106,13 @@ func loadSiteYields() {
 var kindSite = map[string]string{
 	"store": "annotation.StoreElements", "delete": "annotation.DeleteElement", "move": "annotation.MoveElement",
 	"merge": "labelmap.MergeLabels", "cleave": "labelmap.CleaveLabel", "chidx": "labelmap.ChangeLabelIndex",
+	"xmerge": "labelmap.MergeLabels", "xcleave": "labelmap.CleaveLabel",
 	"post": "neuronjson.storeAndUpdate", "postreplace": "neuronjson.storeAndUpdate", "njdelete": "neuronjson.DeleteData",
 	"newversion": "datastore.newVersion", "branch": "datastore.newVersion", "mergeparents": "datastore.merge",
 }
 
 var kindFamily = map[string]string{
-	"store": "ann", "delete": "ann", "move": "ann", "merge": "lm", "cleave": "lm", "chidx": "lm",
+	"store": "ann", "delete": "ann", "move": "ann", "merge": "lm", "cleave": "lm", "chidx": "lm", "xmerge": "lm", "xcleave": "lm",
 	"post": "nj", "postreplace": "nj", "njdelete": "nj", "newversion": "dag", "branch": "dag", "mergeparents": "dag",
 }
 
@@ -128,6 +133,9 @@ func buildEpisode(w *world, ops []opSpec) schedEpisode {
 	case "lm":
 		if ops[0].Kind == "chidx" {
 			return chidxEpisode(w, ops)
+		}
+		if strings.HasPrefix(ops[0].Kind, "x") {
+			return lmxEpisode(w, ops)
 		}
 		return lmEpisode(w, ops)
 	case "nj":
@@ -293,6 +301,217 @@ func lmEpisode(w *world, ops []opSpec) schedEpisode {
 		return 0
 	}
 	return ep
+}
+
+// lmxEpisode: merges into and cleaves from one body whose requests need not commute: a cleave may
+// name a supervoxel that a merge of the same episode brings in, two cleaves may name the same
+// supervoxel or together all of the body.  Supervoxels are numbered within the episode: 0 is the
+// target's own, 1..pre were merged into the target beforehand, pre+1.. are separate bodies.
+// The state is observed explicitly (which supervoxels each body's index lists, where the mapping
+// sends each supervoxel, which requests were acknowledged) and compared with the states that the
+// sequential orders of the requests give under the documented meaning of merge and cleave.
+func lmxEpisode(w *world, ops []opSpec) schedEpisode {
+	n := len(ops)
+	pre := ops[0].Pre
+	extra := 0
+	for _, op := range ops {
+		if op.Kind == "xmerge" && op.Args[0] > extra {
+			extra = op.Args[0]
+		}
+	}
+	nsv := 1 + pre + extra
+	t := w.lmLabels(nsv)
+	lab := func(j int) uint64 { return t + uint64(j) }
+	if pre > 0 {
+		var l []string
+		for j := 1; j <= pre; j++ {
+			l = append(l, fmt.Sprint(lab(j)))
+		}
+		okResp(dv.Post(nodeURL(w.lmRepo, "lm2", "merge"), []byte("["+fmt.Sprint(t)+","+strings.Join(l, ",")+"]")), "seed merge")
+	}
+	cleaved := make([]uint64, n+1)
+	var ep schedEpisode
+	for i := 1; i <= n; i++ {
+		i := i
+		op := ops[i-1]
+		if op.Kind == "xmerge" {
+			a := lab(pre + op.Args[0])
+			ep.reqs = append(ep.reqs, mkReq(op, fmt.Sprintf("POST lm2/merge [%d,%d]", t, a), func() bool {
+				return dv.Post(nodeURL(w.lmRepo, "lm2", "merge"), []byte(fmt.Sprintf("[%d,%d]", t, a))).Status == 200
+			}))
+		} else {
+			var l []string
+			for _, j := range op.Args {
+				l = append(l, fmt.Sprint(lab(j)))
+			}
+			body := "[" + strings.Join(l, ",") + "]"
+			ep.reqs = append(ep.reqs, mkReq(op, fmt.Sprintf("POST lm2/cleave/%d %s (body %d holds supervoxels %d..%d)", t, body, t, t, lab(pre)), func() bool {
+				r := dv.Post(nodeURL(w.lmRepo, "lm2", fmt.Sprintf("cleave/%d", t)), []byte(body))
+				if r.Status != 200 {
+					return false
+				}
+				var m struct{ CleavedLabel uint64 }
+				json.Unmarshal(r.Body, &m)
+				cleaved[i] = m.CleavedLabel
+				return true
+			}))
+		}
+	}
+	// ---- the documented meaning, in every order
+	ep.serial = func(acked []int) [][]view {
+		var alts [][]view
+		all := idsWhere(n, func(int) bool { return true })
+		for _, order := range perms(all) {
+			idx := map[string]map[int]bool{"T": {}}
+			mp := map[int]string{}
+			for j := 0; j <= pre; j++ {
+				idx["T"][j] = true
+				mp[j] = "T"
+			}
+			for j := 1; j <= extra; j++ {
+				name := fmt.Sprintf("A%d", j)
+				idx[name] = map[int]bool{pre + j: true}
+				mp[pre+j] = name
+			}
+			var okd []int
+			for _, i := range order {
+				op := ops[i-1]
+				if op.Kind == "xmerge" {
+					a := fmt.Sprintf("A%d", op.Args[0])
+					if len(idx[a]) == 0 || len(idx["T"]) == 0 {
+						continue // refused: the merged body does not exist (any more)
+					}
+					for sv := range idx[a] {
+						idx["T"][sv] = true
+						mp[sv] = "T"
+					}
+					idx[a] = map[int]bool{}
+					okd = append(okd, i)
+				} else {
+					good := len(idx["T"]) > 0
+					seen := map[int]bool{}
+					for _, sv := range op.Args {
+						if !idx["T"][sv] {
+							good = false
+						}
+						seen[sv] = true
+					}
+					if !good || len(seen) >= len(idx["T"]) {
+						continue // refused: a supervoxel is not in the body, or nothing would be left
+					}
+					c := fmt.Sprintf("C%d", i)
+					idx[c] = map[int]bool{}
+					for sv := range seen {
+						delete(idx["T"], sv)
+						idx[c][sv] = true
+						mp[sv] = c
+					}
+					okd = append(okd, i)
+				}
+			}
+			sort.Ints(okd)
+			alts = append(alts, lmxViews(n, pre, extra, ops, okd, func(b string) []int { return setToList(idx[b]) }, func(b string) []int {
+				var l []int
+				for sv, to := range mp {
+					if to == b {
+						l = append(l, sv)
+					}
+				}
+				sort.Ints(l)
+				return l
+			}))
+		}
+		return alts
+	}
+	// ---- the real state, read through the API after the requests
+	bodyLabel := func(b string) uint64 {
+		switch b[0] {
+		case 'T':
+			return t
+		case 'A':
+			var j int
+			fmt.Sscanf(b, "A%d", &j)
+			return lab(pre + j)
+		default:
+			var i int
+			fmt.Sscanf(b, "C%d", &i)
+			return cleaved[i]
+		}
+	}
+	svOf := func(label uint64) (int, bool) {
+		if label >= t && label < t+uint64(nsv) {
+			return int(label - t), true
+		}
+		return 0, false
+	}
+	ep.observe = func(acked []int) []view {
+		return lmxViews(n, pre, extra, ops, acked, func(b string) []int {
+			l := bodyLabel(b)
+			if l == 0 {
+				return nil
+			}
+			var out []int
+			for sv := range lmSupervoxels(w, l) {
+				if j, ok := svOf(sv); ok {
+					out = append(out, j)
+				} else {
+					out = append(out, 1000) // a supervoxel that does not belong to the episode
+				}
+			}
+			sort.Ints(out)
+			return out
+		}, func(b string) []int {
+			l := bodyLabel(b)
+			var out []int
+			for j := 0; j < nsv; j++ {
+				if l != 0 && lmLabelAt(w, w.colOf(lab(j))) == l {
+					out = append(out, j)
+				}
+			}
+			return out
+		})
+	}
+	ep.extra = func() int {
+		svs := lmSupervoxels(w, t)
+		if lmSize(w, t) != uint64(256*len(svs)) {
+			return 1
+		}
+		return 0
+	}
+	return ep
+}
+
+func setToList(m map[int]bool) []int {
+	var l []int
+	for k, v := range m {
+		if v {
+			l = append(l, k)
+		}
+	}
+	sort.Ints(l)
+	return l
+}
+
+// lmxViews: the views of an explicit labelmap state, in a fixed order, primary data first
+func lmxViews(n, pre, extra int, ops []opSpec, acked []int, index func(body string) []int, mapped func(body string) []int) []view {
+	bodies := []string{"T"}
+	for j := 1; j <= extra; j++ {
+		bodies = append(bodies, fmt.Sprintf("A%d", j))
+	}
+	for i := 1; i <= n; i++ {
+		if ops[i-1].Kind == "xcleave" {
+			bodies = append(bodies, fmt.Sprintf("C%d", i))
+		}
+	}
+	var vs []view
+	for _, b := range bodies {
+		vs = append(vs, view{Name: "index:" + b, IDs: index(b)})
+	}
+	vs = append(vs, view{Name: "acked", IDs: append([]int{}, acked...)})
+	for _, b := range bodies {
+		vs = append(vs, view{Name: "mapping:" + b, IDs: mapped(b)})
+	}
+	return vs
 }
 
 func chidxEpisode(w *world, ops []opSpec) schedEpisode {
@@ -553,7 +772,8 @@ func dagEpisode(w *world, ops []opSpec) schedEpisode {
 
 type pairDef struct {
 	ops  []opSpec
-	tier int // 0: quick and thorough, 1: thorough only
+	tier int  // 0: quick and thorough, 1: thorough only
+	fine bool // only the schedules that also stop before every storage transaction (no model prediction)
 }
 
 func o(kind string, variant int) opSpec { return opSpec{Kind: kind, Variant: variant} }
@@ -585,6 +805,14 @@ func allPairs() []pairDef {
 		pairDef{ops: []opSpec{o("branch", 1), o("branch", 1)}},
 		pairDef{ops: []opSpec{o("newversion", 0), o("mergeparents", 2)}},
 		pairDef{ops: []opSpec{o("branch", 1), o("mergeparents", 2)}},
+		// labelmap requests that do not commute, held at every yield point and before every storage transaction
+		pairDef{fine: true, ops: []opSpec{{Kind: "xmerge", Args: []int{1}, Pre: 1}, {Kind: "xcleave", Args: []int{2}, Pre: 1}}},        // cleave of the supervoxel the merge brings in
+		pairDef{fine: true, ops: []opSpec{{Kind: "xmerge", Args: []int{1}, Pre: 1}, {Kind: "xcleave", Args: []int{1}, Pre: 1}}},        // cleave of a supervoxel the body had before
+		pairDef{fine: true, ops: []opSpec{{Kind: "xcleave", Args: []int{1}, Pre: 2}, {Kind: "xcleave", Args: []int{1}, Pre: 2}}},       // the same supervoxel twice
+		pairDef{fine: true, ops: []opSpec{{Kind: "xcleave", Args: []int{0}, Pre: 1}, {Kind: "xcleave", Args: []int{1}, Pre: 1}}},       // together the whole body
+		pairDef{fine: true, ops: []opSpec{{Kind: "xcleave", Args: []int{1, 2}, Pre: 3}, {Kind: "xcleave", Args: []int{2, 3}, Pre: 3}}}, // overlapping
+		pairDef{fine: true, ops: []opSpec{{Kind: "xmerge", Args: []int{1}, Pre: 0}, {Kind: "xmerge", Args: []int{1}, Pre: 0}}},         // the same body merged twice
+		pairDef{fine: true, ops: []opSpec{{Kind: "xmerge", Args: []int{1}, Pre: 0}, {Kind: "xmerge", Args: []int{2}, Pre: 0}}},
 		// three requests of the shortest sites
 		pairDef{ops: []opSpec{o("store", 0), o("store", 0), o("store", 0)}, tier: 1},
 		pairDef{ops: []opSpec{o("store", 0), o("store", 1), o("store", 0)}, tier: 1},
@@ -607,6 +835,9 @@ func pairName(ops []opSpec) string {
 		}
 		if op.Flavor != "" {
 			s += "@" + op.Flavor
+		}
+		if len(op.Args) > 0 {
+			s += strings.ReplaceAll(fmt.Sprint(op.Args), " ", ",")
 		}
 		ss = append(ss, s)
 	}
